@@ -175,6 +175,35 @@ fn exhaustive(unit: u64, n_units: u64, out: &mut UnitResult) {
             out.evals += 2;
             out.distinct_by_construction += 2;
         }
+        // very long formats: many bracket groups / literals / sections keep their class, and
+        // unbalanced or deeply nested brackets (not legal formats: no class is expected) must not
+        // make the scanner panic or overflow
+        for n in [1usize, 2, 127, 128, 255, 256, 257, 300, 1000, 70_000] {
+            let many = |unit: &str| unit.repeat(n);
+            for (code, want) in [
+                (format!("{}yyyy", many("[Red]")), Some(FmtClass::Date)),
+                (format!("{}0.00", many("[Red]")), Some(FmtClass::Other)),
+                (format!("{}[h]:mm", many("\"d\"")), Some(FmtClass::Duration)),
+                (format!("{}mm", many("\\d")), Some(FmtClass::Date)),
+                (format!("0{}", many(";yyyy")), Some(FmtClass::Other)),
+                (format!("{}yyyy", many("[")), None),
+                (format!("{}yyyy{}", many("["), many("]")), None),
+                (format!("{}yyyy", many("]")), None),
+                (format!("{}yyyy", many("\"")), None),
+            ] {
+                match want {
+                    Some(w) => check_format(&code, w, out, &|| format!("long_format:{}", n)),
+                    None => {
+                        if let Err(f) = guard(|| calamine::verif::classify_format(&code)) {
+                            out.fail(format!("c10|classifier|fault:{}", f.class), json!({"format_prefix": code.chars().take(40).collect::<String>(), "repeat": n}));
+                        }
+                    }
+                }
+                out.evals += 1;
+                out.distinct_by_construction += 1;
+            }
+        }
+        out.feat("long_formats");
         out.feat("builtin_ids");
         out.sample(json!({"builtin_ids": "0..=400 through builtin_format_by_id and builtin_format_by_code"}));
     }
@@ -304,7 +333,7 @@ impl Prop for C10 {
         Some(format!("all admissible token sequences of length <= 3 over {} tokens x 3 section variants; built-in format ids 0..=400", TOKENS.len()))
     }
     fn mandatory(&self, _t: Tier) -> Vec<String> {
-        ["token_sequences<=3", "builtin_ids", "sampled_long_formats", "workbook:xlsx", "workbook:xlsb", "workbook:xls", "style:Date", "style:Duration", "style:Other", "date1904", "xlsb:BrtCellRk:RkInt", "xlsb:BrtCellReal", "xlsb:BrtFmlaNum", "xls:num:NUMBER", "xls:num:RK:RkInt", "xls:formula:num"]
+        ["token_sequences<=3", "builtin_ids", "long_formats", "sampled_long_formats", "workbook:xlsx", "workbook:xlsb", "workbook:xls", "style:Date", "style:Duration", "style:Other", "date1904", "xlsb:BrtCellRk:RkInt", "xlsb:BrtCellReal", "xlsb:BrtFmlaNum", "xls:num:NUMBER", "xls:num:RK:RkInt", "xls:formula:num"]
             .iter().map(|s| s.to_string()).collect()
     }
     fn run_unit(&self, ctx: &Ctx, unit: u64, out: &mut UnitResult) {
